@@ -45,6 +45,13 @@ def episodes(prop, seed, n, full, outputs, n_inst, budget=70):
         eps.append({"gid": name, "schema_text": text, "pats": pats, "vocab": vocab_choice(rng), "outputs": outputs,
                     "budget": budget, "seed": rng.randrange(1 << 30), "instances": insts,
                     "hints": rel.hints_for(g) + [list(json.dumps(k).encode()) for k in khints], "slices": rng.choice([[], "default"])})
+    if prop == "C06":
+        # enumerated intersections (allOf of tuples / items, of string constants), each with a list of candidate texts
+        fam = jsgen.allof_family()
+        for name, schema, texts in (rng.sample(fam, 70) if n < 1000 else fam):
+            eps.append({"gid": name, "schema_text": json.dumps(schema), "pats": [], "vocab": vocab_choice(rng), "outputs": 3,
+                        "budget": budget, "seed": rng.randrange(1 << 30), "instances": [{"text": t} for t in texts],
+                        "hints": [list(b'"kind"')], "slices": []})
     if prop == "C07":
         # integers in narrow windows with fractional / exclusive bounds of either sign (jsgen.tight_integer_family): every
         # integer in and next to the window is offered, so a bound that is off by one is a wrongly refused instance
